@@ -139,3 +139,20 @@ func VerifForgetAll() {
 		delete(ResetterRegistryInstance.pipelineToResetter, k)
 	}
 }
+
+// VerifReadOffset returns the position up to which the job of the given inode has read its file
+// (job.curOffset) and whether such a job exists.
+func VerifReadOffset(p *Plugin, ino uint64) (int64, bool) {
+	jp := p.jobProvider
+	jp.jobsMu.RLock()
+	defer jp.jobsMu.RUnlock()
+	for _, job := range jp.jobs {
+		if uint64(job.inode) == ino {
+			job.mu.Lock()
+			off := job.curOffset
+			job.mu.Unlock()
+			return off, true
+		}
+	}
+	return 0, false
+}
